@@ -10,7 +10,7 @@ p = props[pid]
 files = ", ".join(p.get("anchors", {}).get("files", [])) or "sigma/"
 mech = "; ".join(f"{m.get('name')} ({m.get('where')})" for m in p.get("anchors", {}).get("mechanism", []))
 q = p.get("quantifier", {})
-tpl = open(os.path.join(ROOT, "tools", "benignprompt.template")).read()
+tpl = open(os.path.join(ROOT, "tools", sys.argv[4] if len(sys.argv) > 4 else "benignprompt.template")).read()
 txt = tpl.format(WT=f"/tmp/seed/{name}", NAME=name, TITLE=p["title"], STATEMENT=p["statement"],
                  QUANT=q.get("text", "") if isinstance(q, dict) else q, FILES=files + (" - " + mech if mech else ""), PID=pid)
 os.makedirs(out, exist_ok=True)
